@@ -592,7 +592,8 @@ fn compile_depth(
                 match value {
                     Value::Ident(ident) => {
                         let x = ident.ty().context("no type data")?;
-                        if !x.supports_negate() {
+                        // same question as the type checker asks (`map_prefix`): an alias of a number is a number
+                        if !x.disregard_distractors(false).supports_negate() {
                             bail!("cannot negate")
                         }
                     }
